@@ -750,6 +750,13 @@ def run(rep, tier):
         from . import c15
         c15.clause_f(facts, rep)   # SkipString's quote/backslash masks must not carry bits above the lane count
         c11.clause_shift(facts, rep, {'K1': ('::avx2::',), 'K3': ('::sse::',), 'K4': ('::avx2::', '::sse::')}[cfg])
+    # one raw value skipped from any alignment: start / end / no stray read, byte by byte (sv/scaneval.py; shared by C10, C11, C15, C20)
+    from .. import scaneval
+    for cfg6 in ('K1', 'K3'):
+        try:
+            scaneval.clause(get_facts(cfg6), rep, tier)
+        except AnalysisBroken as ex:
+            rep.broken.append(str(ex))
     rep.trust('clang 14 front end')
     rep.assumptions += [
         'decides only: wrong-kind step and negative index yield an error, an index past the end of an array is noticed at the closing bracket, escaped keys are decoded before comparison whenever they could match, errors are negated, slice cleared on error, target parsed only on success',
